@@ -15,6 +15,7 @@ import (
 	"fmt"
 	"hash/fnv"
 	"os"
+	"path/filepath"
 	"runtime/debug"
 	"sort"
 	"strconv"
@@ -398,4 +399,32 @@ func ProbeKnown(t *testing.T, key, what string, probe func() error) {
 	}
 	WriteReplay(t.Name(), map[string]string{"key": key, "what": what}, err)
 	t.Errorf("defect %s (%s) is present and not listed as an open known finding: %v", key, what, err)
+}
+
+// Regress feeds every committed regression case replays/<PROP>/regress-*.json that was
+// recorded for the test called `test` to check (plain checker, no rapid). These are the
+// minimal inputs of defects that were found and fixed; they run in every tier.
+func Regress[C any](t *testing.T, test string, check func(C) error) {
+	root := os.Getenv("VERIF_ROOT")
+	prop := os.Getenv("VERIF_PROP")
+	if root == "" || prop == "" {
+		t.Skip("no VERIF_ROOT/VERIF_PROP")
+	}
+	files, _ := filepath.Glob(filepath.Join(root, "replays", prop, "regress-*.json"))
+	sort.Strings(files)
+	for _, f := range files {
+		var c C
+		tn, err := LoadCase(f, &c)
+		if err != nil {
+			t.Fatalf("%s: %v", f, err)
+		}
+		if tn != test {
+			continue
+		}
+		if err := Safe("", func() error { return check(c) }); err != nil {
+			WriteReplay(test, c, err)
+			t.Fatalf("regression %s: %v", filepath.Base(f), err)
+		}
+		global.Label("regress:" + filepath.Base(f))
+	}
 }
